@@ -35,7 +35,9 @@ class _ScriptedEstimate(ConvergenceController):
     def post_iteration_processing(self, controller, S, **kwargs):
         if S.status.iter >= S.params.maxiter:
             k = getattr(self, '_k', 0)
-            S.levels[0].status.error_embedded_estimate = float(self.params.ratios[k % len(self.params.ratios)]) * self.params.e_tol
+            # after the scripted prefix the estimate is comfortably below the tolerance, so that every run reaches Tend
+            r = self.params.ratios[k] if k < len(self.params.ratios) else 0.3
+            S.levels[0].status.error_embedded_estimate = float(r) * self.params.e_tol
             self._k = k + 1
 
 
